@@ -31,11 +31,61 @@ type CompareCfg struct {
 	// CLI: the case is run through the code of the gedcom diff command
 	// itself (engine_cli.go) instead of the library call.
 	CLI bool `json:"cli,omitempty"`
+	// FlagCase (CLI only): 0 = flag values as documented; 1 = "-sort" value
+	// with capitals, 2 = "-show" value in upper case, 3 = an unknown "-sort"
+	// value. The command has to refuse 1-3 with a message.
+	FlagCase int `json:"flag_case,omitempty"`
 	// LeftDrop / RightDrop: indices (into the document's individuals) that are
 	// NOT part of the compared list, so that a list is only a part of its
 	// document (what Spouses(), Children() or a filtered list are).
 	LeftDrop  []int `json:"left_drop,omitempty"`
 	RightDrop []int `json:"right_drop,omitempty"`
+	// SameObjects: the right list is made of the left document's own
+	// individuals (the same node objects), in reverse order.
+	SameObjects bool `json:"same_objects,omitempty"`
+	// EditUIDs: before the run under test the two documents are compared once
+	// (every cache is warm) and then edited through the public API: for each
+	// entry k a unique identifier is removed from, or added to, one
+	// individual. The oracles judge the comparison of the edited documents.
+	EditUIDs []int `json:"edit_uids,omitempty"`
+}
+
+func reverseInd(l gedcom.IndividualNodes) gedcom.IndividualNodes {
+	out := gedcom.IndividualNodes{}
+	for i := len(l) - 1; i >= 0; i-- {
+		out = append(out, l[i])
+	}
+	return out
+}
+
+// editUniqueIDs: see CompareCfg.EditUIDs.
+func editUniqueIDs(ld, rd *gedcom.Document, ks []int) {
+	for _, k := range ks {
+		doc, otherDoc := ld, rd
+		if k%2 == 1 {
+			doc, otherDoc = rd, ld
+		}
+		inds := doc.Individuals()
+		if len(inds) == 0 {
+			continue
+		}
+		x := inds[(k/2)%len(inds)]
+		uids := gedcom.NodesWithTag(x, gedcom.UnofficialTagUniqueID)
+		switch {
+		case len(uids) > 0 && k%3 != 0:
+			x.DeleteNode(uids[0])
+		case k%3 == 0 && len(otherDoc.Individuals()) > 0:
+			// the identifier of somebody on the other side: a new certain match
+			y := otherDoc.Individuals()[(k/7)%len(otherDoc.Individuals())]
+			if ys := gedcom.NodesWithTag(y, gedcom.UnofficialTagUniqueID); len(ys) > 0 {
+				x.AddNode(gedcom.NewNode(gedcom.UnofficialTagUniqueID, ys[0].Value(), ""))
+				continue
+			}
+			fallthrough
+		default:
+			x.AddNode(gedcom.NewNode(gedcom.UnofficialTagUniqueID, hex32(NewRand(uint64(k)+99)), ""))
+		}
+	}
 }
 
 func dropFrom(list gedcom.IndividualNodes, drop []int) gedcom.IndividualNodes {
@@ -119,6 +169,16 @@ func genCompareCase(prop, tier string, r *rand.Rand) *Case {
 			}
 		}
 	}
+	if r.IntN(10) == 0 {
+		c.Compare.SameObjects = true
+		c.Docs[1] = c.Docs[0]
+		c.Compare.RightDrop = nil
+	}
+	if r.IntN(8) == 0 {
+		for k := 1 + r.IntN(3); k > 0; k-- {
+			c.Compare.EditUIDs = append(c.Compare.EditUIDs, r.IntN(1000))
+		}
+	}
 	if r.IntN(3) == 0 {
 		c.Compare.Notifier = "drain"
 		c.Compare.NotifierStep = pick(r, []int64{0, 1, 100})
@@ -129,7 +189,10 @@ func genCompareCase(prop, tier string, r *rand.Rand) *Case {
 		c.Compare.DiffPage = true
 		c.Compare.DiffShow = pick(r, []string{html.DiffPageShowAll, html.DiffPageShowOnlyMatches, html.DiffPageShowSubset})
 		c.Compare.DiffSort = pick(r, []string{html.DiffPageSortWrittenName, html.DiffPageSortHighestSimilarity})
-		c.Compare.CLI = r.IntN(2) == 0 && len(c.Compare.LeftDrop)+len(c.Compare.RightDrop) == 0
+		c.Compare.CLI = r.IntN(2) == 0 && len(c.Compare.LeftDrop)+len(c.Compare.RightDrop)+len(c.Compare.EditUIDs) == 0 && !c.Compare.SameObjects
+		if c.Compare.CLI && r.IntN(6) == 0 {
+			c.Compare.FlagCase = 1 + r.IntN(3)
+		}
 	}
 	c.Sim = GenSim(r)
 	return c
@@ -171,7 +234,19 @@ func runCompare(t *testing.T, cr *CaseResult, prop string, c *Case, cfg CompareC
 	sim.Labels = labels
 	sim.Today = parseToday(c.Today)
 
+	if len(cfg.EditUIDs) > 0 {
+		warm := &CaseResult{Prop: prop, Probes: map[string]int64{}, Counters: map[string]int64{}}
+		runSim(t, warm, prop, simrt.Config{Mode: "default", MapOrder: "identity", Labels: labels}, func() {
+			ld.Individuals().Compare(rd.Individuals(), gedcom.NewIndividualNodesCompareOptions())
+		})
+		cr.Runs++
+		editUniqueIDs(ld, rd, cfg.EditUIDs)
+		cr.count("history.edit_after_first_compare", int64(len(cfg.EditUIDs)))
+	}
 	left, right := dropFrom(ld.Individuals(), cfg.LeftDrop), dropFrom(rd.Individuals(), cfg.RightDrop)
+	if cfg.SameObjects {
+		right = reverseInd(dropFrom(ld.Individuals(), cfg.RightDrop))
+	}
 	lidx := map[*gedcom.IndividualNode]int{}
 	ridx := map[*gedcom.IndividualNode]int{}
 	for i, x := range left {
@@ -306,7 +381,17 @@ type compareReference struct {
 func newCompareReference(c *Case, cfg *CompareCfg) *compareReference {
 	ld, _ := decode(c.Docs[0])
 	rd, _ := decode(c.Docs[1])
+	if len(cfg.EditUIDs) > 0 {
+		// the same edits on cold copies (the text is what counts)
+		editUniqueIDs(ld, rd, cfg.EditUIDs)
+		ld, _ = decode(ld.String())
+		rd, _ = decode(rd.String())
+	}
 	ref := &compareReference{left: dropFrom(ld.Individuals(), cfg.LeftDrop), right: dropFrom(rd.Individuals(), cfg.RightDrop), full: map[pairIdx]float64{}}
+	if cfg.SameObjects {
+		ld2, _ := decode(ld.String())
+		ref.right = reverseInd(dropFrom(ld2.Individuals(), cfg.RightDrop))
+	}
 	ref.opts = compareOptions(cfg).SimilarityOptions
 	for _, x := range ref.left {
 		ref.uidL = append(ref.uidL, x.UniqueIdentifiers().Strings())
@@ -409,6 +494,12 @@ func runCompareCase(t *testing.T, c *Case) *CaseResult {
 	}
 	if len(cfg.LeftDrop)+len(cfg.RightDrop) > 0 {
 		cr.Probes["list_is_part_of_document"]++
+	}
+	if cfg.SameObjects {
+		cr.Probes["same_objects_on_both_sides"]++
+	}
+	if len(cfg.EditUIDs) > 0 {
+		cr.Probes["edited_after_first_compare"]++
 	}
 	for _, text := range c.Docs {
 		seen := map[string]bool{}
